@@ -10,6 +10,7 @@ import PygModel.Bitemp
 import PygProofs.Lemmas.BitempLemmas
 import PygProofs.Lemmas.BitempInv
 import PygProofs.Lemmas.BitempFrames
+import PygProofs.Lemmas.BitempCols
 
 namespace Pyg.Props.C17
 open Pyg Pyg.Bitemp
@@ -955,5 +956,60 @@ theorem frame_last_loses_value :
   refine ⟨_, frameDemo2_store, ?_, ?_⟩
   · rw [biReadFS_single 2 1 _ (by decide) (by decide) (by decide)]; decide
   · rw [specReadR_single 1 _ (by decide) (by decide)]; decide
+
+
+/-! ### what DOES hold column by column: histories in which, per date, every version carries a NEW stamp -/
+
+/-- a frame history with `w` value columns in which, per observation date, the stamps strictly increase in merge order (no two
+    versions holding a date share a stamp) -/
+structure OrderedFF (w : Nat) (log : List (Int × TSF)) : Prop where
+  ne : log ≠ []
+  width : ∀ r ∈ logRowsF log, r.vals.length = w
+  cols : ∀ d, (groupF d (logRowsF log)).Pairwise (fun a b => a.stamp < b.stamp)
+
+/-- **frames, column by column (`what='last'`)**: if per date every version carries a new stamp, `bi_read(store, asof=T,
+    what='last')` is, in EVERY column, the fold of that column's publications stamped `≤ T` - the per-column `read_spec`.
+    (With a shared stamp it fails: `frame_last_loses_value`; for the default read it fails anyway:
+    `frame_default_read_nan_overrides`.) -/
+theorem frame_read_last_columns (w : Nat) (log : List (Int × TSF)) (h : OrderedFF w log) (T : Option Int) :
+    ∃ st, historyFF log = some st ∧ ∀ c, c < w →
+      (biReadFS w st T .last).map (fun p => (p.1, (p.2[c]?).join)) = specReadR (colF c (logRowsF log)) T := by
+  match log, h with
+  | [], h => exact absurd rfl h.ne
+  | v :: rest, h =>
+    obtain ⟨st, hst⟩ := historyFF_some v rest
+    refine ⟨st, hst, ?_⟩
+    intro c hc
+    obtain ⟨st', hst', hg, he, _⟩ := historyFF_invC c w hc v rest h.width h.cols
+    rw [hst] at hst'; cases hst'
+    have hs : ∀ d, SortedLe (group d (colF c st)) := by
+      intro d; rw [← colF_groupF]; exact sortedLe_colF c (hg d)
+    have := biReadFS_col c w hc st T .last
+    simp only [cell] at this
+    rw [this, biReadS_last _ hs, specReadR_eq, specRows_congr he]
+
+/-- **frames, default read**: under the same hypothesis every non-NaN cell of the default read is the per-column fold; a NaN
+    cell may hide an earlier value of its column (`frame_default_read_nan_overrides`) -/
+theorem frame_default_read_cells (w : Nat) (log : List (Int × TSF)) (h : OrderedFF w log) (T : Option Int) :
+    ∃ st, historyFF log = some st ∧ ∀ c, c < w → ∀ d vs x, (d, vs) ∈ biReadF st T (-1) → (vs[c]?).join = some x →
+      (d, some x) ∈ specReadR (colF c (logRowsF log)) T := by
+  match log, h with
+  | [], h => exact absurd rfl h.ne
+  | v :: rest, h =>
+    obtain ⟨st, hst⟩ := historyFF_some v rest
+    refine ⟨st, hst, ?_⟩
+    intro c hc d vs x hmem hx
+    obtain ⟨st', hst', hg, he, _⟩ := historyFF_invC c w hc v rest h.width h.cols
+    rw [hst] at hst'; cases hst'
+    have hs : ∀ d, SortedLe (group d (colF c st)) := by
+      intro d; rw [← colF_groupF]; exact sortedLe_colF c (hg d)
+    have hm : (d, some x) ∈ biRead (colF c st) T (-1) := by
+      rw [← biReadF_col, List.mem_map]
+      exact ⟨(d, vs), hmem, by simp only [cell, hx]⟩
+    have := mem_biRead_some_specRows _ hs T d x hm
+    rwa [specReadR_eq, ← specRows_congr he]
+
+example : OrderedFF 2 frameDemo :=
+  ⟨by simp [frameDemo], by decide, fun d => List.Pairwise.sublist List.filter_sublist (by decide)⟩
 
 end Pyg.Props.C17
